@@ -870,7 +870,8 @@ MANIFEST = {
             "adapters, NVX and pure-Python validator/masker) after a real opening handshake and "
             "compared with an independent RFC 6455 receiver automaton: deliveries and order, "
             "pong per ping, failure status 1002/1007 or drop + onClose(False,1006), nothing "
-            "after the violation, split independence.",
+            "after the violation, split independence."
+            " Receiver contexts whose options are declared on the protocol class instead of the factory; two interleaved connections built by one factory.",
     "note": "Trusted: ref/ws_receiver.py + ref/utf8.py (written from the RFCs), env/ transports "
             "(tcp.Connection / selector transport semantics). Payload bytes are representatives; "
             "only state OPEN; garbage deflate bodies excluded.",
